@@ -31,6 +31,7 @@ type C08Case struct {
 
 	// values
 	Recv  string    `json:"recv,omitempty"` // stack | cond
+	Seed  string    `json:"seed,omitempty"` // stack receivers: two separate instances of this catalogue entry are stored first (relations between two stored values of one Go type)
 	Calls []C17Call `json:"calls,omitempty"`
 }
 
@@ -364,8 +365,18 @@ func runC08Values(c C08Case) (st Stats, err error) {
 			}
 			cp = &cc
 		} else {
-			a := newStackOfKind(c.Kind, 0).Push("a", 2)
-			b := newStackOfKind(c.Kind, 0).Push("a", 2)
+			a := newStackOfKind(c.Kind, 0)
+			b := newStackOfKind(c.Kind, 0)
+			if c.Seed != "" {
+				for _, e := range awkwardCatalogue {
+					if e.Name == c.Seed {
+						a.Push(e.Make(), e.Make())
+						b.Push(e.Make(), e.Make())
+					}
+				}
+			}
+			a.Push("a", 2)
+			b.Push("a", 2)
 			sp, tw = &a, &b
 		}
 	}); p != "" {
@@ -512,6 +523,25 @@ func enumC08(tier Tier, yield func(C08Case)) {
 			}
 		}
 	}
+	// two stored instances of every catalogue entry, then every method that takes indices or nothing
+	// (relations between two stored values of one Go type: index arguments 0 and 1 are among the variants)
+	isInt := map[string]bool{}
+	for _, m := range intParamMethods {
+		isInt[m.Name] = true
+	}
+	for _, m := range stackMethods {
+		if m.Type.NumIn() != 1 && !isInt[m.Name] {
+			continue
+		}
+		for i, a := range awkwardCatalogue {
+			for v := 0; v < 4; v++ {
+				if m.Type.NumIn() == 1 && v > 0 {
+					break
+				}
+				yield(C08Case{Mode: "values", Recv: "stack", Kind: stackKinds[(i+v)%5], Seed: a.Name, Calls: []C17Call{{Method: m.Name, Variant: v}}})
+			}
+		}
+	}
 }
 
 func genC08(t *rapid.T, tier Tier) C08Case {
@@ -519,6 +549,9 @@ func genC08(t *rapid.T, tier Tier) C08Case {
 		L := rapid.IntRange(0, 8).Draw(t, "len")
 		if rapid.IntRange(0, 9).Draw(t, "long?") == 0 {
 			L = rapid.IntRange(15, 70).Draw(t, "longlen")
+			if rapid.IntRange(0, 5).Draw(t, "huge?") == 0 {
+				L = rapid.IntRange(250, 520).Draw(t, "hugelen")
+			}
 		}
 		c := C08Case{Mode: "grid", Kind: rapid.SampledFrom(stackKinds).Draw(t, "kind"), Len: L, NilAt: -1, Neg: rapid.Bool().Draw(t, "neg"), Fwd: rapid.Bool().Draw(t, "fwd"), FIFO: rapid.Bool().Draw(t, "fifo")}
 		if L > 0 && rapid.Bool().Draw(t, "hasnil") {
@@ -543,6 +576,9 @@ func genC08(t *rapid.T, tier Tier) C08Case {
 		return c
 	}
 	c := C08Case{Mode: "values", Recv: "stack", Kind: rapid.SampledFrom(stackKinds).Draw(t, "kind")}
+	if rapid.IntRange(0, 3).Draw(t, "seed?") == 0 {
+		c.Seed = awkwardCatalogue[rapid.IntRange(0, len(awkwardCatalogue)-1).Draw(t, "seed")].Name
+	}
 	ms := stackMethods
 	if rapid.IntRange(0, 3).Draw(t, "cond") == 0 {
 		c.Recv = rapid.SampledFrom([]string{"cond", "cond-noop"}).Draw(t, "condkind")
